@@ -1,12 +1,13 @@
-(* Props/C07.v — sample order and repetition do not change what is inferred.  Statements only; proofs in Proofs/PermProps.v.
-   FULL STATEMENT (generate_perm_dup): for sample lists equal as sets, the results of generate are equal up to field and
-   member order (sem_eqb).  PROVED SO FAR: sem_eqb is an equivalence decided by canon; DUnion construction depends only on
-   the set of flattened members; the key set and the required/optional status of every key of a merge depend only on the
-   set of field sets; the merge itself is invariant (members up to the relation, any order, any multiplicity); and
-   C07_generate_perm_dup_partial: the full statement UNDER the congruence of optimize (its first hypothesis), whose closed
-   induction is the missing piece (all its steps — regroup, finish, str_result, dunion — are proved).  The full statement is
-   tested on the model for every case of the run (Views/Vperm.v) and on the implementation by the oracle. *)
-From Coq Require Import List Bool Arith NArith ZArith.
+(* Props/C07.v — sample order and repetition do not change what is inferred.  Statements only; proofs in
+   Proofs/PermAux.v and Proofs/PermProps.v.
+   FULL STATEMENT, PROVED (C07_generate_perm_dup): for sample lists equal as SETS (so: any permutation, any repetition),
+   for every registry, replacement table, acceptance oracle, dict decision and fuel on which both runs succeed, the results
+   of generate are equal up to field and member order (sem_eqb, decided by canon: C07_sem_eqb_iff).  C07_generate_perm is
+   the permutation corollary.  Supporting statements kept: DUnion construction depends only on the set of flattened
+   members; the key set and the required/optional status of every key of a merge depend only on the set of field sets.
+   The registry stages (merge_models) are NOT covered by this theorem: they are covered by the oracle of the check
+   (graph canonical form over permuted / duplicated samples) and by Views/Vperm.v on the model. *)
+From Coq Require Import List Bool Arith NArith ZArith Permutation.
 From J2M.Model Require Import Base Union Merge Optimize Detect Canon.
 From J2M.Sem Require Import NF.
 From J2M.Proofs Require Import NormalForm PermAux PermProps.
@@ -33,24 +34,27 @@ Theorem C07_merge_keys_status_set :
         lookup k (merge_field_sets peq sets') = Some v' -> is_opt v = is_opt v').
 Proof. exact PermAux.merge_keys_status_set. Qed.
 
-Theorem C07_generate_perm_dup_partial :
+Theorem C07_generate_perm_dup :
   forall (registry : list pseudo) (replaces : list (pseudo * pseudo)) (accepts : pseudo -> str -> bool)
-         (n_regex : nat) (key_matches : nat -> str -> bool) (dict_fields : list str),
-       (forall (f f' : nat) (a b u u' : ty),
-        RF1 a = true ->
-        S a = true ->
-        RF1 b = true ->
-        S b = true ->
-        frel a b ->
-        optimize registry replaces N.eqb f a = Some u ->
-        optimize registry replaces N.eqb f' b = Some u' -> canon u = canon u') ->
-       forall (fuel fuel' : nat) (s1 s2 : list (list (str * json))) (f1 f2 : fields),
+         (n_regex : nat) (key_matches : nat -> str -> bool) (dict_fields : list str)
+         (fuel fuel' : nat) (s1 s2 : list (list (str * json))) (f1 f2 : fields),
        (forall x : list (str * json), In x s1 <-> In x s2) ->
        Forall (fun s : list (str * json) => wf_json (JObj s) = true) s1 ->
        generate registry replaces accepts n_regex key_matches dict_fields fuel s1 = Some f1 ->
        generate registry replaces accepts n_regex key_matches dict_fields fuel' s2 = Some f2 ->
        sem_eqb (TObj f1) (TObj f2) = true.
-Proof. exact PermProps.generate_perm_dup_cong. Qed.
+Proof. exact PermProps.generate_perm_dup. Qed.
+
+Theorem C07_generate_perm :
+  forall (registry : list pseudo) (replaces : list (pseudo * pseudo)) (accepts : pseudo -> str -> bool)
+         (n_regex : nat) (key_matches : nat -> str -> bool) (dict_fields : list str)
+         (fuel fuel' : nat) (s1 s2 : list (list (str * json))) (f1 f2 : fields),
+       Permutation s1 s2 ->
+       Forall (fun s : list (str * json) => wf_json (JObj s) = true) s1 ->
+       generate registry replaces accepts n_regex key_matches dict_fields fuel s1 = Some f1 ->
+       generate registry replaces accepts n_regex key_matches dict_fields fuel' s2 = Some f2 ->
+       sem_eqb (TObj f1) (TObj f2) = true.
+Proof. exact PermProps.generate_perm. Qed.
 
 From Coq Require Import String.
 From J2M.Model Require Import Emit.
